@@ -6,14 +6,22 @@ package main
 
 import (
 	"github.com/oasisprotocol/curve25519-voi/zzverif/mon"
+	"os"
+	"strconv"
 )
 
 func main() {
+	if v := os.Getenv("VERIF_C20_FIRST"); v != "" {
+		idx, _ := strconv.Atoi(v)
+		firstChild(idx)
+		return
+	}
 	r := mon.Start("C20", "exhaustive enumeration of the embedded constants and tables of this build: 32x8 packed fixed-base entries (and the live copy), two 64-entry odd-multiple tables, B*2^128, on AVX2 the three start-up generated vector tables, base points, EIGHT_TORSION by value, group order and Montgomery-form scalar constants, lattice constants, curve/Ristretto/Elligator/field constants; every value decoded from raw limbs and compared with a big-integer definition; non-trivial = one constant or table entry; distinct = its name")
 	if r.Replay != "" {
 		// a constant mismatch is replayed by re-running the whole (cheap) enumeration
 	}
 	run(r)
+	firstUse(r)
 	// use every accessor that hands out a point and scribble over what it returned: the constants must be unaffected
 	// (an accessor that returns the shared object instead of a copy lets callers rewrite a constant)
 	abuse()
